@@ -33,6 +33,11 @@
         ServerLost         the dialer rejected and closed before the accepting side got further
         ClientSees / HandlerSees   the close code the peer observes / whether the handler got the dialer's stream
 
+   The establishment path is a scenario dimension only: the rule is the same on every path (both sides consult
+   their after_handshake hooks for every connection that completes its handshake; a Reject fails the attempt and
+   closes with the hook's code; the protocol code runs only behind them), so CAfter / SAfter / HandlerAccept are not
+   path-specific and TLC enumerates the dimension.  The incoming filter exists only on the Router path.
+
    The harness (harness/src/bin/vh_router.rs, e2e) runs each scenario on two real endpoints on 127.0.0.1 with
    recording handlers (handler for protocol a closes with HandlerCode[a] after it received the dialer's stream),
    recording hooks and a recording filter; checks/c40.py and checks/c42.py compare what was recorded with the
@@ -43,6 +48,11 @@ CONSTANTS Scenarios
                 offers : sequence of protocols the dialer offers (primary first; "" = empty protocol name),
                 self   : dialing its own id,
                 closed : the dialing endpoint was closed before the call,
+                cpath  : how the dialer establishes: "await" = `Connecting` awaited (Endpoint::connect), "zrtt" =
+                         `Connecting::into_0rtt` + `handshake_completed()` (after a ticket-priming connection),
+                spath  : how the accepting side establishes: "router" = Router (filter, ProtocolHandler),
+                         "await" = own accept loop, `Incoming::accept` + `Accepting` awaited,
+                         "zrtt" = own accept loop, `Accepting::into_0rtt` + `handshake_completed()`,
                 filt   : [on : BOOLEAN, v1 : verdict for an unvalidated Incoming, v2 : verdict for a validated one],
                 ch, sh : sequences of hooks on the dialing / accepting endpoint,
                          hook = [before : "A" | "R", after : 0 (accept) | close code (reject)]] *)
@@ -110,7 +120,7 @@ Incoming ==
 Verdict == IF validated THEN scn.filt.v2 ELSE scn.filt.v1
 Filter ==
   /\ stage = "incoming"
-  /\ IF ~scn.filt.on
+  /\ IF ~scn.filt.on \/ scn.spath # "router"
         THEN stage' = "handshake" /\ passed' = TRUE /\ UNCHANGED <<filterLog, result>>
         ELSE /\ filterLog' = Append(filterLog, validated)
              /\ CASE Verdict = "Accept" -> stage' = "handshake" /\ passed' = TRUE /\ UNCHANGED result
@@ -237,6 +247,8 @@ ShortCircuit == /\ \A k \in DOMAIN cBefore : cBefore[k].i = k /\ (k < Len(cBefor
 RejectCodeSeen == /\ (cside = "rejected" /\ handlerSaw # 0) => handlerSaw = scn.ch[FirstReject(scn.ch, RejectsAfter)].after
                   /\ (sside = "rejected" /\ clientSaw # 0) => clientSaw = scn.sh[FirstReject(scn.sh, RejectsAfter)].after
                   /\ (cside = "rejected") => result = "LocallyRejectedAfter"
+\* scenarios are well-formed: paths are known, only a Router has an incoming filter
+PathsWellFormed == scn.cpath \in {"await", "zrtt"} /\ scn.spath \in {"router", "await", "zrtt"}
 \* every attempt ends: complete runs have a result
 Decided == Terminal => result # ""
 
